@@ -90,6 +90,13 @@ class Check:
             n = self.known_hits.get(k["id"], 0)
             if n:
                 print(f"KNOWN-FINDING: property={self.pid} {k['id']}: {k['what']} ({n} occurrence(s) in this run)")
+        if self.violations:
+            agg: Dict[str, int] = {}
+            for v in self.violations:
+                k = json.dumps(v["key"], sort_keys=True)
+                agg[k] = agg.get(k, 0) + 1
+            for k, n in sorted(agg.items(), key=lambda x: -x[1])[:15]:
+                print(f"  violation class x{n}: {k}")
         for v in self.violations[:20]:
             print(f"VIOLATION property={self.pid} replay={v['replay']}")
             print(f"  what: {v['what']}")
